@@ -2,10 +2,10 @@
 real lexer (whose equivalence with the grammar is C14's subject) and dropped if the types differ."""
 
 LEXEMES = {
-    "INT": ["7", "0", "12"], "FLOAT": ["1.5", "2e3", "1.0"], "COMPLEX": ["2j", "1+2j"], "STR": ['"s"', '""', '"50% {} %s {0}"'],
+    "INT": ["7", "0", "12"], "FLOAT": ["1.5", "2e3", "1.0"], "COMPLEX": ["2j", "1+2j"], "STR": ['"s"', '""', '"50% {} %s {0}"', '"\u00e9 \u65e5\u672c"'],
     "BOOL": ["True", "False"], "SEQUENCE": ["1,2"], "NEWLINE": ["\n"], "TAB": ["\t", "    "],
     "NAME": ["abc", "x", "G_1"], "DEVICE": ["a.b", "1.x"], "REGREF": ["q0", "q12"], "MEASURE": ["MeasureX", "Measure"],
-    "ANY": ["$", "@", "%"],
+    "ANY": ["$", "@", "%", "\u00e9"],
 }
 TIGHT = {"NEWLINE", "TAB"}
 
